@@ -39,13 +39,37 @@ CONSTANTS Deviations,     \* subset of AllDevs: what the implementation model ma
 VARIABLES stage, op, args, exp, impl, ideal, why
 vars == <<stage, op, args, exp, impl, ideal, why>>
 
-AllDevs == {"alpha_scalar_other_type", "reduce_int_keeps_dtype", "all_any_uint8_bool", "any_empty_true", "any_all_dims_empty_list",
-            "any_all_dims_scalar_input", "argmax_none_keepdim_shape", "amax_dim_required", "amax_scalar_dims", "mean_dtype_ignored",
-            "mean_dim_none", "prod_dim_scalar_input", "squeeze_dim_non_unit", "reshape_zero_copies", "broadcast_to_minus_one",
-            "flatten_zero_size", "narrow_negative_start", "cat_legacy_empty", "chunk_single_not_list", "chunk_count", "split_empty_dim",
-            "roll_onnx_edges", "flip_scalar", "pad_scalar", "arange_mixed_scalars", "batch_norm_non_f32",
-            "layer_norm_stats_float32", "unflatten_zero_size",
-            "any_dim_scalar_input"}      \* the last one is only observable end to end (AtenModule.tla)
+(* Named deviations: places where the transcribed code departs from ATen (guards and effects are in the Low* operators). *)
+AllDevs == {
+  "alpha_scalar_other_type",     \* add/sub.Tensor(x, python scalar, alpha != 1): other*alpha becomes an INT64/FLOAT constant -> Add/Sub type error unless x has that type
+  "reduce_int_keeps_dtype",      \* sum, sum.dim_IntList, prod.dim_int, cumsum on uint8/int32 keep the input type (ATen: int64)
+  "all_any_uint8_bool",          \* any/all(.dim/.dims) on uint8 return BOOL (ATen: uint8)
+  "any_empty_true",              \* any* over an empty reduction: ReduceMax of nothing -> INT64 lowest -> True (ATen: False)
+  "any_all_dims_empty_list",     \* any.dims/all.dims(dim=[]): `if not dim` reduces everything (ATen: nothing)
+  "any_all_dims_scalar_input",   \* any.dims/all.dims on a 0-d tensor with dims given, keepdim=False: Squeeze(0-d, dims) is refused
+  "argmax_none_keepdim_shape",   \* argmax/argmin(dim=None, keepdim=True): shape [1] (ATen: [1]*rank)
+  "amax_dim_required",           \* amax/amin(x): scripted function has no default for `dim` -> tracing fails
+  "amax_scalar_dims",            \* amax/amin(0-d, [0] / [-1]): ReduceMax over an axis of a rank-0 input -> invalid model
+  "mean_dtype_ignored",          \* mean(x, dtype=d): scripted aten_mean has no dtype parameter, result keeps the input type
+  "mean_dim_none",               \* mean.dim(x, None): Reshape(None, [-1]) -> invalid graph
+  "prod_dim_scalar_input",       \* prod.dim_int(0-d, 0 / -1): ReduceProd(axes=[dim]) on rank 0 -> invalid model
+  "squeeze_dim_non_unit",        \* squeeze.dim(x, d) with x.shape[d] != 1: Squeeze refuses (ATen: no-op)
+  "reshape_zero_copies",         \* reshape / view_copy with a 0 in the target: ONNX Reshape (allowzero=0) copies the input dim
+  "broadcast_to_minus_one",      \* broadcast_to(x, [.., -1]): -1 is handed to Expand untranslated (aten_expand translates it)
+  "flatten_zero_size",           \* flatten.using_ints on a zero-size tensor (general path): Reshape(head ++ [-1] ++ tail) with 0 dims copied / ambiguous
+  "narrow_negative_start",       \* narrow(x, d, start<0, n): Slice(start, start+n) without wrapping start
+  "cat_legacy_empty",            \* cat with 1-D empty tensors: the unfiltered list goes to Concat; all-empty trips an assert
+  "chunk_single_not_list",       \* chunk(x, 1): returns a tensor instead of a one-element list
+  "chunk_count",                 \* chunk(x, c) when ATen returns fewer than c chunks: Split(num_outputs=c) cannot produce that
+  "split_empty_dim",             \* split.Tensor on an axis of extent 0: SplitToSequence yields no tensor (ATen: one empty tensor)
+  "roll_onnx_edges",             \* roll: dim = -1 with shift >= 0 (Shape(start=-1, end=0) is empty) and zero-size inputs (end bound = Size(self))
+  "flip_scalar",                 \* flip(0-d, [0] / [-1]): Slice on a rank-0 tensor
+  "pad_scalar",                  \* constant_pad_nd(0-d, []): Pad on a rank-0 tensor
+  "arange_mixed_scalars",        \* arange.start(int, float) / (float, int) without dtype: Range over an INT64 and a FLOAT constant
+  "batch_norm_non_f32",          \* _native_batch_norm_legit_no_training on f16/f64: Div(1.0, Sqrt(var + eps)) mixes FLOAT with the input type
+  "layer_norm_stats_float32",    \* native_layer_norm on f64: mean / rstd come back as float32 (stash_type default)
+  "unflatten_zero_size",         \* unflatten.int on zero-size input with -1: Reshape(allowzero=1) target holds -1 and 0 (outside the ONNX text)
+  "any_dim_scalar_input"}        \* any.dim/all.dim on a 0-d tensor: after constant folding the exported model fails shape inference (end to end only, AtenModule.tla)
 NoDevs == {}
 
 -----------------------------------------------------------------------------
